@@ -36,10 +36,56 @@ def norm(status):
     return status
 
 
-def record(res, tool, argv_desc, status, outcome, expect_file=None, extra=None):
+MODULES = {"run": "in_toto_run", "record_start": "in_toto_record", "record_stop": "in_toto_record", "verify": "in_toto_verify",
+           "sign": "in_toto_sign", "sign_verify": "in_toto_sign", "mock": "in_toto_mock", "match_products": "in_toto_match_products"}
+
+
+def abstract_args(tool, argv):
+    """What argparse leaves in the namespace, reduced to what main() looks at (the parser is in-toto's own
+    create_parser(); the checks main() then makes are the model's)."""
+    import contextlib, importlib, io
+    parser = importlib.import_module("in_toto." + MODULES[tool]).create_parser()
+    try:
+        with contextlib.redirect_stdout(io.StringIO()), contextlib.redirect_stderr(io.StringIO()):
+            ns = parser.parse_args(list(argv))
+    except SystemExit:
+        return {"argparse_ok": False}
+    a = {"argparse_ok": True}
+    if tool == "run":
+        a.update(key=ns.key, gpg=ns.gpg, signing_key=ns.signing_key, no_command=bool(ns.no_command), link_cmd=list(ns.link_cmd or []))
+    elif tool in ("record_start", "record_stop"):
+        a.update(key=ns.key, gpg=ns.gpg, signing_key=ns.signing_key)
+    elif tool == "verify":
+        a.update(layout_keys=ns.layout_keys, gpg=ns.gpg, verification_keys=ns.verification_keys)
+    elif tool in ("sign", "sign_verify"):
+        a.update(verify=bool(ns.verify), append=bool(ns.append), output=ns.output, key=ns.key, gpg=ns.gpg)
+    return a
+
+
+def model_main(tool, argv, outcome, file_kind=None):
+    """Status predicted by the model of main(): its own argument checks on the parsed arguments, then the status of
+    what the operation does (`outcome`; irrelevant when a check fails)."""
+    req = {"op": "cli_main", "tool": "sign" if tool == "sign_verify" else tool, "args": abstract_args(tool, argv),
+           "work": "success" if outcome == "usage" else outcome}
+    if tool in ("sign", "sign_verify"):
+        req["file"] = file_kind or "layout"
+    r = core.driver().call(req)
+    if "ok" not in r:
+        raise core.Infra("cli_main: %r" % (r,))
+    return r["ok"]
+
+
+def record(res, tool, argv_desc, status, outcome, expect_file=None, extra=None, argv=None, file_kind=None):
     m = model_status(tool, outcome)
     st = norm(status)
     agreed = st == m
+    if argv is not None:
+        m2 = model_main(tool, argv, outcome, file_kind)
+        res.evaluations += 1
+        if st != m2:
+            agreed = False
+            res.fail("disagree", {"op": "cli_main", "tool": tool, "args": argv_desc, "argv": [str(x) for x in argv], "outcome": outcome},
+                     {"op": "cli_main", "impl": status, "model": m2, "parsed": abstract_args(tool, argv)})
     case = {"tool": tool, "args": argv_desc, "status": status, "outcome": outcome}
     if extra:
         case.update(extra)
@@ -120,7 +166,10 @@ def verify_cases(rng, res, n):
                 else:
                     form = "verification-keys"
                     argv += ["--verification-keys"] + keyfiles
-                variant = rng.choice(["plain"] * 6 + ["no_keys", "unknown_option", "missing_layout", "garbage_layout", "extra_unsigned_key"])
+                variant = rng.choice(["plain"] * 6 + ["no_keys", "unknown_option", "missing_layout", "garbage_layout", "extra_unsigned_key",
+                                      "mixed_forms_extra_unsigned", "mixed_forms_extra_unsigned", "mixed_forms_gpg_unsigned"])
+                if variant.startswith("mixed_forms") and form != "verification-keys":
+                    variant = "plain"
                 out2 = outcome
                 if variant == "no_keys":
                     argv = [a for a in argv if a not in keyfiles and not a.endswith("-keys")]
@@ -135,6 +184,20 @@ def verify_cases(rng, res, n):
                     open(os.path.join(root, "garbage.layout"), "w").write("{not json")
                     argv[1] = os.path.join(root, "garbage.layout")
                     out2 = "load"
+                elif variant == "mixed_forms_extra_unsigned":
+                    # every key that signed goes in through --verification-keys, one that did not through the
+                    # deprecated --layout-keys (either order): for each passed key the layout must carry a signature
+                    other = [k for k in W.pool() if k not in ch.owners and k.kind == "rsa"][0]
+                    extra = ["--layout-keys", write_pub_pem(other, root)]
+                    argv = argv + extra if rng.random() < 0.5 else argv[:4] + extra + argv[4:]
+                    out2 = "fail"
+                elif variant == "mixed_forms_gpg_unsigned":
+                    if W.gpg_available():
+                        g = W.gpg_key("no_sub")
+                        argv = argv + ["--gpg", g.keyid, "--gpg-home", g.gpg_home]
+                        out2 = "fail"
+                    else:
+                        variant = "plain"
                 elif variant == "extra_unsigned_key":
                     other = [k for k in W.pool() if k not in ch.owners][0]
                     argv += [write_pub_pem(other, root)]
@@ -143,7 +206,7 @@ def verify_cases(rng, res, n):
             finally:
                 os.chdir(cwd)
             record(res, "verify", {"family": fam, "keys": form, "variant": variant, "layout_fmt": ch.layout_fmt}, st, out2,
-                   extra={"library": vcommon.short(lib)})
+                   extra={"library": vcommon.short(lib)}, argv=argv)
         finally:
             scen.drop_root(root)
 
@@ -231,7 +294,8 @@ def run_record_cases(rng, res, n):
                     expect = os.path.join(d, files[0]) if files else os.path.join(d, "st.legacy.link")
                 else:
                     expect = os.path.join(d, "nope" if variant == "bad_metadata_dir" else "", "st.%s.link" % key.keyid[:8])
-                record(res, "run", {"variant": variant, "dsse": dsse, "key": key.kind}, st, outcome, expect_file=expect)
+                record(res, "run", {"variant": variant, "dsse": dsse, "key": key.kind}, st, outcome, expect_file=expect,
+                       argv=argv + keyargs + cmd)
             elif tool == "record":
                 variant = rng.choice(["ok", "ok", "stop_without_start", "missing_key", "two_keys", "bad_subcommand",
                                       "empty_signing_key", "empty_key", "empty_gpg"])
@@ -246,16 +310,18 @@ def run_record_cases(rng, res, n):
                 fin = os.path.join(d, "st.%s.link" % k.keyid[:8])
                 if variant == "bad_subcommand":
                     st, _o, _e = cli.run_main("in_toto_record", ["pause", "-n", "st"] + keyargs)
-                    record(res, "record_start", {"variant": variant}, st, "usage")
+                    record(res, "record_start", {"variant": variant}, st, "usage", argv=["pause", "-n", "st"] + keyargs)
                     continue
                 if variant != "stop_without_start":
-                    st, _o, _e = cli.run_main("in_toto_record", ["start", "-n", "st", "-m", "."] + keyargs + (["--use-dsse"] if dsse else []))
+                    av = ["start", "-n", "st", "-m", "."] + keyargs + (["--use-dsse"] if dsse else [])
+                    st, _o, _e = cli.run_main("in_toto_record", av)
                     out = {"ok": "success", "missing_key": "fail", "two_keys": "usage"}.get(variant, "usage")
-                    record(res, "record_start", {"variant": variant, "dsse": dsse, "key": k.kind}, st, out, expect_file=pre)
+                    record(res, "record_start", {"variant": variant, "dsse": dsse, "key": k.kind}, st, out, expect_file=pre, argv=av)
                 open("out.txt", "w").write("o")
-                st, _o, _e = cli.run_main("in_toto_record", ["stop", "-n", "st", "-p", "."] + keyargs)
+                av = ["stop", "-n", "st", "-p", "."] + keyargs
+                st, _o, _e = cli.run_main("in_toto_record", av)
                 out = {"ok": "success", "stop_without_start": "fail", "missing_key": "fail", "two_keys": "usage"}.get(variant, "usage")
-                record(res, "record_stop", {"variant": variant, "dsse": dsse, "key": k.kind}, st, out, expect_file=fin)
+                record(res, "record_stop", {"variant": variant, "dsse": dsse, "key": k.kind}, st, out, expect_file=fin, argv=av)
             else:
                 variant = rng.choice(["ok", "ok", "no_such_command", "no_name"])
                 argv = ["-n", "mk"] + (["--use-dsse"] if dsse else []) + ["--", sys.executable, "-c", "print(1)"]
@@ -265,7 +331,7 @@ def run_record_cases(rng, res, n):
                 elif variant == "no_name":
                     argv = ["--", "true"]; outcome = "usage"
                 st, _o, _e = cli.run_main("in_toto_mock", argv)
-                record(res, "mock", {"variant": variant, "dsse": dsse}, st, outcome, expect_file=os.path.join(d, "mk.link"))
+                record(res, "mock", {"variant": variant, "dsse": dsse}, st, outcome, expect_file=os.path.join(d, "mk.link"), argv=argv)
         finally:
             os.chdir(cwd)
             shutil.rmtree(d, ignore_errors=True)
@@ -289,34 +355,60 @@ def sign_match_cases(rng, res, n):
             md = Envelope.from_signable(lay) if dsse else Metablock(signed=lay)
             md.dump("l.layout")
             variant = rng.choice(["sign_verify_ok", "verify_wrong_key", "verify_unsigned", "verify_with_append", "both_key_kinds",
-                                  "missing_file", "sign_bad_key", "link_two_keys", "match_equal", "match_changed", "match_missing_link"])
+                                  "missing_file", "sign_bad_key", "link_two_keys", "match_equal", "match_changed", "match_missing_link",
+                                  "link_append", "link_one_key", "verify_gpg_no_id", "verify_with_output", "no_key_arg",
+                                  "verify_with_empty_output"])
             if variant in ("sign_verify_ok", "verify_wrong_key"):
-                st, _o, _e = cli.run_main("in_toto_sign", ["-f", "l.layout", "-k", priv_path(k)])
-                record(res, "sign", {"variant": variant, "dsse": dsse, "key": k.kind}, st, "success")
+                _av = ["-f", "l.layout", "-k", priv_path(k)]
+                st, _o, _e = cli.run_main("in_toto_sign", _av)
+                record(res, "sign", {"variant": variant, "dsse": dsse, "key": k.kind}, st, "success", argv=_av, file_kind="layout")
                 vk = k if variant == "sign_verify_ok" else other
-                st, _o, _e = cli.run_main("in_toto_sign", ["-f", "l.layout", "-k", write_pub_pem(vk, d), "--verify"])
+                _av = ["-f", "l.layout", "-k", write_pub_pem(vk, d), "--verify"]
+                st, _o, _e = cli.run_main("in_toto_sign", _av)
                 record(res, "sign_verify", {"variant": variant, "dsse": dsse, "key": k.kind}, st,
-                       "success" if variant == "sign_verify_ok" else "sig")
+                       "success" if variant == "sign_verify_ok" else "sig", argv=_av, file_kind="layout")
             elif variant == "verify_unsigned":
-                st, _o, _e = cli.run_main("in_toto_sign", ["-f", "l.layout", "-k", write_pub_pem(k, d), "--verify"])
-                record(res, "sign_verify", {"variant": variant, "dsse": dsse}, st, "sig")
+                _av = ["-f", "l.layout", "-k", write_pub_pem(k, d), "--verify"]
+                st, _o, _e = cli.run_main("in_toto_sign", _av)
+                record(res, "sign_verify", {"variant": variant, "dsse": dsse}, st, "sig", argv=_av, file_kind="layout")
             elif variant == "verify_with_append":
-                st, _o, _e = cli.run_main("in_toto_sign", ["-f", "l.layout", "-k", write_pub_pem(k, d), "--verify", "-a"])
-                record(res, "sign_verify", {"variant": variant}, st, "usage")
+                _av = ["-f", "l.layout", "-k", write_pub_pem(k, d), "--verify", "-a"]
+                st, _o, _e = cli.run_main("in_toto_sign", _av)
+                record(res, "sign_verify", {"variant": variant}, st, "usage", argv=_av, file_kind="layout")
             elif variant == "both_key_kinds":
-                st, _o, _e = cli.run_main("in_toto_sign", ["-f", "l.layout", "-k", priv_path(k), "-g"])
-                record(res, "sign", {"variant": variant}, st, "usage")
+                _av = ["-f", "l.layout", "-k", priv_path(k), "-g"]
+                st, _o, _e = cli.run_main("in_toto_sign", _av)
+                record(res, "sign", {"variant": variant}, st, "usage", argv=_av, file_kind="layout")
             elif variant == "missing_file":
-                st, _o, _e = cli.run_main("in_toto_sign", ["-f", "nope.layout", "-k", priv_path(k)])
-                record(res, "sign", {"variant": variant}, st, "load")
+                _av = ["-f", "nope.layout", "-k", priv_path(k)]
+                st, _o, _e = cli.run_main("in_toto_sign", _av)
+                record(res, "sign", {"variant": variant}, st, "load", argv=_av, file_kind="unloadable")
             elif variant == "sign_bad_key":
-                st, _o, _e = cli.run_main("in_toto_sign", ["-f", "l.layout", "-k", os.path.join(d, "nokey.pem")])
-                record(res, "sign", {"variant": variant}, st, "fail")
+                _av = ["-f", "l.layout", "-k", os.path.join(d, "nokey.pem")]
+                st, _o, _e = cli.run_main("in_toto_sign", _av)
+                record(res, "sign", {"variant": variant}, st, "fail", argv=_av, file_kind="layout")
+            elif variant in ("link_append", "link_one_key"):
+                lk = Link(name="s")
+                (Envelope.from_signable(lk) if dsse else Metablock(signed=lk)).dump("s.link")
+                _av = ["-f", "s.link", "-k", priv_path(k)] + (["-a"] if variant == "link_append" else [])
+                st, _o, _e = cli.run_main("in_toto_sign", _av)
+                record(res, "sign", {"variant": variant, "dsse": dsse}, st, "usage" if variant == "link_append" else "success",
+                       argv=_av, file_kind="link")
+            elif variant in ("verify_gpg_no_id", "verify_with_output", "no_key_arg", "verify_with_empty_output"):
+                _av = {"verify_gpg_no_id": ["-f", "l.layout", "--verify", "-g"],
+                       "verify_with_output": ["-f", "l.layout", "--verify", "-k", write_pub_pem(k, d), "-o", "out.layout"],
+                       "verify_with_empty_output": ["-f", "l.layout", "--verify", "-k", write_pub_pem(k, d), "-o", ""],
+                       "no_key_arg": ["-f", "l.layout"]}[variant]
+                st, _o, _e = cli.run_main("in_toto_sign", _av)
+                # an empty -o value is not a conflict for main(); the unsigned layout then fails the signature check
+                record(res, "sign_verify" if "--verify" in _av else "sign", {"variant": variant, "dsse": dsse}, st,
+                       "sig" if variant == "verify_with_empty_output" else "usage", argv=_av, file_kind="layout")
             elif variant == "link_two_keys":
                 lk = Link(name="s")
                 (Envelope.from_signable(lk) if dsse else Metablock(signed=lk)).dump("s.link")
-                st, _o, _e = cli.run_main("in_toto_sign", ["-f", "s.link", "-k", priv_path(k), priv_path(other)])
-                record(res, "sign", {"variant": variant}, st, "usage")
+                _av = ["-f", "s.link", "-k", priv_path(k), priv_path(other)]
+                st, _o, _e = cli.run_main("in_toto_sign", _av)
+                record(res, "sign", {"variant": variant}, st, "usage", argv=_av, file_kind="link")
             else:
                 open("a.txt", "w").write("a\n")
                 import hashlib
@@ -328,8 +420,9 @@ def sign_match_cases(rng, res, n):
                     open("a.txt", "w").write("changed\n"); outcome = "differ"
                 elif variant == "match_missing_link":
                     argv[1] = os.path.join(d, "nope.link"); outcome = "load"
-                st, _o, _e = cli.run_main("in_toto_match_products", argv)
-                record(res, "match_products", {"variant": variant, "dsse": dsse}, st, outcome)
+                _av = argv
+                st, _o, _e = cli.run_main("in_toto_match_products", _av)
+                record(res, "match_products", {"variant": variant, "dsse": dsse}, st, outcome, argv=_av, file_kind=None)
         finally:
             os.chdir(cwd)
             shutil.rmtree(d, ignore_errors=True)
